@@ -167,6 +167,21 @@ struct St {
     writers: BTreeMap<u64, Writer<Ext<Tx>>>,
     readers: BTreeMap<u64, Reader<Ext<Tx>>>,
     emitted: Vec<StreamFrame>,
+    /// set while an operation runs: still set when the state is dropped = the operation panicked
+    in_op: bool,
+}
+
+/// A panic inside an operation (caught by `hproto::run`, reported as `! panic <op>`) can leave a
+/// sender / receiver mutex poisoned; `Writer::drop` / `Reader::drop` lock it and would panic a second
+/// time, outside `catch_unwind`, when the case state is dropped.  After a panic the stream handles
+/// are leaked instead of dropped, so that the process goes on with the next case.
+impl Drop for St {
+    fn drop(&mut self) {
+        if self.in_op {
+            std::mem::forget(std::mem::take(&mut self.writers));
+            std::mem::forget(std::mem::take(&mut self.readers));
+        }
+    }
 }
 
 fn vi(v: u64) -> VarInt {
@@ -242,6 +257,7 @@ fn new_case(words: &[&str]) -> St {
         writers: BTreeMap::new(),
         readers: BTreeMap::new(),
         emitted: Vec::new(),
+        in_op: false,
     }
 }
 
@@ -315,7 +331,14 @@ fn inject_result(st: &mut St, o: &mut Obs, r: Result<usize, Error>, ft: qbase::f
     }
 }
 
-fn step(st: &mut St, op: &Op, _i: usize) -> Obs {
+fn step(st: &mut St, op: &Op, i: usize) -> Obs {
+    st.in_op = true;
+    let o = step_op(st, op, i);
+    st.in_op = false;
+    o
+}
+
+fn step_op(st: &mut St, op: &Op, _i: usize) -> Obs {
     let mut o = Obs::new();
     if st.closed {
         o.push(-1);
